@@ -29,8 +29,23 @@ HND = COW + "::handle"
 LR = "gmlc::libguarded::lr_guarded"
 
 
+def lr_based(ctx):
+    """the commit / reader rules describe the implementation on top of lr_guarded; with another representation of the
+    committed value they cannot be applied (analysis broken, not a violation)"""
+    for r in ctx.fb.records(tmpl=COW):
+        fl = r.field("m_data")
+        if fl is None or not fl["type"].startswith("gmlc::libguarded::lr_guarded<"):
+            return False
+    return True
+
+
 def run(ctx):
     ctx.step(const_rules, ctx)
+    if not lr_based(ctx):
+        ctx.unknown("C04: cow_guarded::m_data is no longer an lr_guarded<shared_ptr<const T>>; the span/commit/reader rules "
+                    "describe that implementation and cannot judge another one")
+        ctx.step(common.witnesses, ctx, "C04.witness", ["C04"])
+        return
     ctx.step(span, ctx)
     ctx.step(commit, ctx)
     ctx.step(reader, ctx)
@@ -50,9 +65,8 @@ def const_rules(ctx):
         ok = a is not None and a["type"] == "std::shared_ptr<const %s>" % t
         ctx.ob(rid, ok, site, "shared_handle is std::shared_ptr<const T>", "" if ok else str(a and a["type"]), inst=r.qname)
         fl = r.field("m_data")
-        ok = fl is not None and fl["type"].startswith("gmlc::libguarded::lr_guarded<std::shared_ptr<const %s>" % t) and \
-            fl["access"] == "private"
-        ctx.ob(rid, ok, site, "m_data is a private lr_guarded<shared_ptr<const T>>", "" if ok else str(fl and fl["type"]), inst=r.qname)
+        ok = fl is not None and ("std::shared_ptr<const %s>" % t) in fl["type"] and fl["access"] == "private"
+        ctx.ob(rid, ok, site, "the committed value is held privately as shared_ptr<const T>", "" if ok else str(fl and fl["type"]), inst=r.qname)
         fl = r.field("m_writeMutex")
         ok = fl is not None and fl["access"] == "private"
         ctx.ob(rid, ok, site, "m_writeMutex is private", "", inst=r.qname)
